@@ -179,10 +179,22 @@ type Cap = Rc<RefCell<Vec<Log>>>;
 
 /// recording `EntryIoStream`: what a (sampling) stream below the wrappers gets to see
 struct RecStream(Cap);
+thread_local! {
+    /// the recording stream / format at the bottom of a stack rejects (after recording it) the
+    /// entry that makes its log this long; 0 = never
+    static REJECT_WHEN_LOG_LEN: std::cell::Cell<usize> = const { std::cell::Cell::new(0) };
+}
+fn bottom_result(cap: &Cap) -> Result<(), IoStreamError> {
+    if cap.borrow().len() == REJECT_WHEN_LOG_LEN.with(|c| c.get()) {
+        Err(IoStreamError::Validation(ValidationError::invalid("scripted: the stream below the wrappers rejects this entry")))
+    } else {
+        Ok(())
+    }
+}
 impl EntryIoStream for RecStream {
     fn next(&mut self, entry: &impl Entry) -> Result<(), IoStreamError> {
         self.0.borrow_mut().push(record(entry));
-        Ok(())
+        bottom_result(&self.0)
     }
     fn flush(&mut self) -> io::Result<()> {
         Ok(())
@@ -194,7 +206,7 @@ struct RecFormat(Cap);
 impl Format for RecFormat {
     fn format(&mut self, entry: &impl Entry, _output: &mut impl io::Write) -> Result<(), IoStreamError> {
         self.0.borrow_mut().push(record(entry));
-        Ok(())
+        bottom_result(&self.0)
     }
 }
 
@@ -1084,31 +1096,39 @@ fn eval_stream<E: Ent, F: Fn(&'static Compiled, &mut Arena) -> E, C: SChain>(cx:
         let mut stream = C::build(cap.clone());
         let mut arena = Arena::default();
         let e = make(c, &mut arena);
-        // the same entry twice through ONE stream stack: a wrapper must not spend its
+        // the same entry three times through ONE stream stack: a wrapper must not spend its
         // configuration (globals, dimensions, deny list) on the first entry
-        let r = stream.next(&e).and_then(|()| stream.next(&e));
+        // ... and the second of three is rejected by the stream below the wrappers (after it
+        // has been recorded): the error must come back, and the third entry must be treated
+        // like the first
+        REJECT_WHEN_LOG_LEN.with(|c| c.set(2));
+        let r1 = stream.next(&e);
+        let r2 = stream.next(&e);
+        let r3 = stream.next(&e);
+        REJECT_WHEN_LOG_LEN.with(|c| c.set(0));
         let _ = stream.flush();
         drop(stream);
         drop(e);
         drop(arena);
-        match r {
-            Ok(()) => {
+        match (r1, r2, r3) {
+            (Ok(()), Err(IoStreamError::Validation(_)), Ok(())) => {
                 let mut v = cap.borrow_mut();
-                if v.len() != 2 {
+                if v.len() != 3 {
                     return Log { items: vec![Item::StreamCalls(v.len())], sg: vec![] };
                 }
+                let third = v.pop().unwrap();
                 let second = v.pop().unwrap();
                 let first = v.pop().unwrap();
-                if first == second {
+                if first == second && first == third {
                     first
                 } else {
-                    // report the second entry's log, marked so that it cannot match by accident
-                    let mut l = second;
-                    l.items.push(Item::StreamCalls(2));
+                    // report the deviating entry's log, marked so that it cannot match by accident
+                    let (mut l, n) = if first != second { (second, 2) } else { (third, 3) };
+                    l.items.push(Item::StreamCalls(n));
                     l
                 }
             }
-            Err(_) => Log { items: vec![Item::StreamCalls(usize::MAX)], sg: vec![] },
+            (r1, r2, r3) => Log { items: vec![Item::StreamCalls(usize::MAX - [r1.is_ok(), r2.is_ok(), r3.is_ok()].iter().filter(|b| **b).count())], sg: vec![] },
         }
     })
 }
